@@ -253,10 +253,13 @@ def sanitize_except_aromatization(mol):
                      SANITIZE_CLEANUP)
     Chem.SanitizeMol(mol, sanitizeOps=Chem.rdmolops.SanitizeFlags.
                      SANITIZE_CLEANUPCHIRALITY)
-    Chem.SanitizeMol(mol, sanitizeOps=Chem.rdmolops.SanitizeFlags.
-                     SANITIZE_FINDRADICALS)
+    # Radicals are counted on the Kekule structure (as RDKit's own
+    # sanitization does): an aromatic [s] or [se] written in brackets has
+    # valence 3 on the aromatic form and would be taken for a radical.
     Chem.SanitizeMol(mol, sanitizeOps=Chem.rdmolops.SanitizeFlags.
                      SANITIZE_KEKULIZE)
+    Chem.SanitizeMol(mol, sanitizeOps=Chem.rdmolops.SanitizeFlags.
+                     SANITIZE_FINDRADICALS)
     Chem.SanitizeMol(mol, sanitizeOps=Chem.rdmolops.SanitizeFlags.
                      SANITIZE_PROPERTIES)
     Chem.SanitizeMol(mol, sanitizeOps=Chem.rdmolops.SanitizeFlags.
